@@ -221,6 +221,10 @@ func checkC01(c *Check) {
 	c.Rule("R9", "E6 sibling agreement", "regex tree and regex leaf reject a segment only when the expression did not match (nil sub-matches), never by comparing the number of sub-matches with the number of binds", 2)
 	checkRegexAcceptance(c)
 
+	// ---- R13 the kind of a segment is decided by its syntax alone
+	c.Rule("R13", "E1 guard-cut / value implication", "the style interpreters classify by syntax: static only for a single literal element, placeholder only for a single {bind} element other than **, match-all only behind the ** test of the bind or of its first parameter's literal (a segment read as another kind gets that kind's rank)", 3)
+	checkClassifiers(c)
+
 	// ---- R12 the route that is matched is the route that was written
 	c.Rule("R12", "shared with C11 (R2)", "inside groups the registered text is the group prefixes followed by the route's own text, byte for byte (no cleaning, joining or collapsing): a trailing or doubled slash is a segment of its own for the matcher", 3)
 	c.Share("C11", []string{"R2"}, 3)
@@ -1232,4 +1236,115 @@ func madeErrorOnPath(path []*ssa.BasicBlock, v ssa.Value) bool {
 		}
 	}
 	return false
+}
+
+
+// checkClassifiers: every possibly-true verdict of a style interpreter lies behind the syntactic tests that
+// define the kind (C01.R13).
+func checkClassifiers(c *Check) {
+	p := c.P
+	elem0 := func(fn *ssa.Function) VM {
+		elems := vField(vParam(fn, 0), "Elements")
+		return vLocalCopyOf(func(v ssa.Value) bool {
+			v = strip(v)
+			if u, ok := v.(*ssa.UnOp); ok && u.Op == token.MUL {
+				v = u.X
+			}
+			ia, ok := v.(*ssa.IndexAddr)
+			return ok && elems(ia.X) && vConstInt(0)(ia.Index)
+		})
+	}
+	deref := func(inner VM) VM {
+		return func(v ssa.Value) bool {
+			u, ok := strip(v).(*ssa.UnOp)
+			return ok && u.Op == token.MUL && inner(u.X)
+		}
+	}
+	type need struct {
+		what string
+		cond CondM
+		pos  bool
+	}
+	check := func(name string, needs func(fn *ssa.Function) [][]need) {
+		fn := p.Fn("route", name)
+		if fn == nil {
+			c.Anchor("route." + name)
+			return
+		}
+		key := p.FuncKey(fn) + ":syntactic"
+		var rets []*ssa.Return
+		allInstrs(fn, func(in ssa.Instruction) {
+			if r, ok := in.(*ssa.Return); ok && len(r.Results) > 0 && !vConstBool(false)(r.Results[len(r.Results)-1]) {
+				rets = append(rets, r)
+			}
+		})
+		if len(rets) == 0 {
+			c.Bad(key, p.FuncPos(fn), "the interpreter never reports its kind")
+			return
+		}
+		bad := ""
+		for _, r := range rets {
+			last := r.Results[len(r.Results)-1]
+			// one of the alternative sets of tests must hold on this verdict
+			okAlt := false
+			why := ""
+			for _, alt := range needs(fn) {
+				all := true
+				for _, n := range alt {
+					edges := edgesWhere(fn, n.cond, n.pos)
+					isG := func(v ssa.Value) bool {
+						m, pos := n.cond(v)
+						return m && pos == n.pos
+					}
+					if ok, w := boolImplies(fn, last, r.Block(), isG, edges); !ok {
+						all = false
+						why = n.what + ": " + w
+						break
+					}
+				}
+				if all {
+					okAlt = true
+					break
+				}
+			}
+			if !okAlt {
+				bad = p.Pos(r.Pos()) + " (" + why + ")"
+			}
+		}
+		if bad == "" {
+			c.OK(key, p.FuncPos(fn), "every possibly-true verdict lies behind the syntactic tests of the kind", numInstrs(fn))
+		} else {
+			c.Bad(key, p.FuncPos(fn), "a segment can be reported as this kind without the syntactic tests that define the kind: its rank among siblings is that of another kind: "+bad)
+		}
+	}
+	one := func(fn *ssa.Function) need {
+		return need{"len(Elements) == 1", cCmp(token.EQL, vLen(vField(vParam(fn, 0), "Elements")), vConstInt(1)), true}
+	}
+	check("isMatchStyleStatic", func(fn *ssa.Function) [][]need {
+		return [][]need{{one(fn), {"Elements[0].Ident != nil", cCmp(token.EQL, vField(elem0(fn), "Ident"), vNil), false}}}
+	})
+	check("checkMatchStylePlaceholder", func(fn *ssa.Function) [][]need {
+		bi := vField(elem0(fn), "BindIdent")
+		return [][]need{{one(fn), {"Elements[0].BindIdent != nil", cCmp(token.EQL, bi, vNil), false}, {"*BindIdent != \"**\"", cCmp(token.EQL, deref(bi), vConstStr("**")), false}}}
+	})
+	check("checkMatchStyleAll", func(fn *ssa.Function) [][]need {
+		bi := vField(elem0(fn), "BindIdent")
+		lit := func(v ssa.Value) bool {
+			// Elements[0].BindParameters.Parameters[0].Value.Literal
+			r, ns, ok := fieldPath(v)
+			if !ok || len(ns) != 2 || ns[0] != "Value" || ns[1] != "Literal" {
+				return false
+			}
+			r = strip(r)
+			if u, isU := r.(*ssa.UnOp); isU && u.Op == token.MUL {
+				r = u.X
+			}
+			ia, isIA := r.(*ssa.IndexAddr)
+			return isIA && vConstInt(0)(ia.Index) && vField(elem0(fn), "BindParameters", "Parameters")(ia.X)
+		}
+		return [][]need{
+			{one(fn), {"*BindIdent == \"**\"", cCmp(token.EQL, deref(bi), vConstStr("**")), true}},
+			{{"*Parameters[0].Value.Literal == \"**\"", cCmp(token.EQL, deref(lit), vConstStr("**")), true}},
+		}
+	})
 }
